@@ -13,5 +13,7 @@ CONSTANTS
   Scales <- AllScales
   ProdScales <- LongProdScales
   FirstSeed = TRUE
-INVARIANTS RegOneToOne UnknownIsError NameRoundTrip ScalarInRange ScalarMonotone ScalarShape ModuleDefinition
+  FreshMaps = TRUE
+INVARIANTS FactoryIndependent RegOneToOne UnknownIsError NameRoundTrip ScalarInRange ScalarMonotone ScalarShape ModuleDefinition
+PROPERTY FactoryStepLaw
 CHECK_DEADLOCK FALSE
